@@ -2,7 +2,11 @@
 //! Java/C++ format descriptions (preamble tables), not from the crate under test. Every decoder also
 //! returns a field map `[(offset, len, name)]` for the structure-aware mutator of C14.
 
+pub mod cpc;
+pub mod hll;
+pub mod small;
 pub mod tdigest;
+pub mod theta;
 
 pub type Fields = Vec<(usize, usize, &'static str)>;
 
